@@ -224,6 +224,7 @@ func checkC16(p *Prog, res *Result, tier string) {
 	res.rule("C16-R7", "watch and range answers are not corrupted after they were handed over: batches sent over channels are never written again by the sender (C05-R9)", 2)
 	res.rule("C16-R8", "the backend conditions behind the transaction shapes hold (C01-R3/R4/R7) and engine faults are not turned into answers by the metrics wrapper (C11-R5)", 10)
 	res.rule("C16-R6", "a Range answer is the backend's complete snapshot read: no key missing, duplicated or out of order because of partitioning or a retried scan (C13-R5/R6/R8)", 5)
+	res.rule("C16-R9", "a Range answer names the revision its data was read at: header and default read revision derive from one load of the committed revision taken before the scan (C06-R2), and the etcd translation hands the backend's header on", 6)
 	res.rule("C16-R5", "the failure branch of update/delete answers with the key-value read after the failed write", 2)
 
 	txnM := p.ifaceMethod("go.etcd.io/etcd/api/v3/etcdserverpb", "KVServer", "Txn")
@@ -554,6 +555,13 @@ func checkC16(p *Prog, res *Result, tier string) {
 			checkFailureBranchKv(p, r, res, f, casFailed)
 		}
 	}
+	// ---- R9: the revision a Range answer names is the one its data was read at (C06-R2, C02-R4) ----
+	for _, o := range p.subResult("C06", tier).Obls {
+		if o.Rule == "C06-R2" {
+			res.add("C16-R9", o.Rule+" "+o.Construct, o.Status, o.Pos, o.Detail)
+		}
+	}
+	checkShimHeaders(p, lr, res, "C16-R9")
 	// ---- R6: the Range answer is the complete snapshot (C13-R5/R6/R8) ----
 	sub13 := p.subResult("C13", tier)
 	for _, o := range sub13.Obls {
@@ -1082,4 +1090,125 @@ func checkFailureBranchKv(p *Prog, r *Roles, res *Result, f *ssa.Function, casFa
 	if n == 0 {
 		res.bad("C16-R5", funcName(f)+": key-value of the failed-condition answer", p.pos(f.Pos()), "the failed-condition branch does not return the current key-value")
 	}
+}
+
+// checkShimHeaders: the etcd translation layer answers with the header the backend answered with. Every
+// etcdserverpb.ResponseHeader that a method of the shim builds from a revision gets that revision from the Revision
+// field of a kubebrain ResponseHeader (the backend's response, also inside a streamed response) - never from a
+// separate look at the committed revision, which may have moved on since the backend read its data (header newer
+// than the snapshot) or may lag behind a version that is stored but not sequenced yet (header older than the data).
+func checkShimHeaders(p *Prog, lr *leaderRoles, res *Result, rule string) {
+	hdr := p.namedType("github.com/kubewharf/kubebrain-client/api/v2rpc", "ResponseHeader")
+	var hdrRev *types.Var
+	hs := hdr.Underlying().(*types.Struct)
+	for i := 0; i < hs.NumFields(); i++ {
+		if hs.Field(i).Name() == "Revision" {
+			hdrRev = hs.Field(i)
+		}
+	}
+	etcdHdr := p.namedType("go.etcd.io/etcd/api/v3/etcdserverpb", "ResponseHeader")
+	// classify the revision operand: 1 = only loads of the backend header's Revision field (through conversions,
+	// phis and local variables), 2 = something else is mixed in (returned), 0 = nothing recognised
+	classify := func(v ssa.Value) (int, ssa.Value) {
+		seen := map[ssa.Value]bool{}
+		good, other := false, ssa.Value(nil)
+		var walk func(v ssa.Value, d int)
+		walk = func(v ssa.Value, d int) {
+			if v == nil || seen[v] || d > 20 {
+				return
+			}
+			seen[v] = true
+			for _, x := range resolveAll(v) {
+				switch y := x.(type) {
+				case *ssa.Convert:
+					walk(y.X, d+1)
+				case *ssa.ChangeType:
+					walk(y.X, d+1)
+				case *ssa.UnOp:
+					if fa, ok := y.X.(*ssa.FieldAddr); ok && y.Op == token.MUL && fieldOf(fa) == hdrRev {
+						good = true
+					} else if y != v {
+						walk(y, d+1)
+					} else if other == nil {
+						other = y
+					}
+				case *ssa.Field:
+					if fieldOfField(y) == hdrRev {
+						good = true
+					} else if other == nil {
+						other = y
+					}
+				case *ssa.Phi:
+					if y != v {
+						walk(y, d+1)
+					}
+				case *ssa.Parameter:
+					// a helper of the shim that is handed the revision
+					acts := p.paramActuals(y)
+					if len(acts) == 0 && other == nil {
+						other = y
+					}
+					for _, a := range acts {
+						walk(a, d+1)
+					}
+				default:
+					if other == nil {
+						other = x
+					}
+				}
+			}
+		}
+		walk(v, 0)
+		switch {
+		case other != nil:
+			return 2, other
+		case good:
+			return 1, nil
+		}
+		return 0, nil
+	}
+	var fs []*ssa.Function
+	for f := range lr.shimImpl {
+		fs = append(fs, f)
+		fs = append(fs, allAnon(f)...)
+	}
+	sort.Slice(fs, func(i, j int) bool { return funcName(fs[i]) < funcName(fs[j]) })
+	n := 0
+	for _, f := range fs {
+		k := 0
+		for _, c := range callsIn(f) {
+			sc := c.Common().StaticCallee()
+			if sc == nil || sc.Signature.Results().Len() != 1 || !types.Identical(sc.Signature.Results().At(0).Type(), types.NewPointer(etcdHdr)) || len(c.Common().Args) != 1 {
+				continue
+			}
+			k++
+			n++
+			top := f
+			for top.Parent() != nil {
+				top = top.Parent()
+			}
+			construct := fmt.Sprintf("%s: header #%d carries the backend's header revision", funcName(top), k)
+			arg := c.Common().Args[0]
+			switch cls, o := classify(arg); {
+			case cls == 1:
+				res.ok(rule, construct, p.pos(c.Pos()), "Revision field of the backend's response header")
+			case cls == 2:
+				res.bad(rule, construct, p.pos(c.Pos()), "the header revision of an answer is taken from something other than the header of the backend's response ("+o.String()+"): a separate look at the committed revision can name a revision newer than the snapshot the data was read at, or older than the modification revision of the data it carries")
+			default:
+				res.bad(rule, construct, p.pos(c.Pos()), "the header revision of an answer does not derive from the header of the backend's response")
+			}
+		}
+	}
+	if n == 0 {
+		res.und(rule, "etcd shim: response headers", "-", "no header construction found in the shim")
+	}
+}
+
+func allAnon(f *ssa.Function) []*ssa.Function {
+	var out []*ssa.Function
+	for _, a := range f.AnonFuncs {
+		out = append(out, a)
+		out = append(out, allAnon(a)...)
+	}
+	return out
 }
